@@ -19,6 +19,36 @@ CHECKS = {
         technique='Lean 4 proof over hand-written model + differential correspondence + round-trip oracle',
         design='6/C13'),
 }
+CHECKS.update({
+    'C18': dict(
+        level='proof',
+        text='Lean 4 theorems: the CREATE TABLE order is a permutation of the tables (perm, nodup, perm_tables) and a function '
+             'of table names and hosted inline references only (depends_only_on_model). The first clause (referenced tables '
+             'first) is false of the current code: kernel-checked witness chain_violates, replayed on the real code and '
+             'recorded as known finding KF-C18-hosts-first (tests pin the behaviour). Model tied to reorder_tables_for_sql / '
+             'db.sql by differential testing; order read back by an independent DDL reader.',
+        note='trusted: Lean kernel; axioms propext/Classical.choice/Quot.sound; model of sorted() as stable insertion sort, tied by sampling',
+        technique='Lean 4 proof (permutation, determinism, counter-example) + differential correspondence + DDL-reader oracle',
+        design='6/C18'),
+    'C03': dict(
+        level='translation_validation',
+        text='Lean model of the default SQL renderer tied to the code by differential testing of db.sql and of every '
+             'enum/column/index element rendering; model-free oracle reads db.sql back with an independent tokenising DDL '
+             'reader and compares types, tables (each exactly once), columns, keys, indexes and COMMENT ON with expectations '
+             'computed from the content. Theorems about the statement structure are staged (DESIGN 6/C03).',
+        note='trusted: hand-written model tied by sampling; DDL reader; oracle restricted to reader-hygienic names',
+        technique='Lean model + differential correspondence + DDL-reader oracle (theorems staged)',
+        design='6/C03'),
+    'C04': dict(
+        level='translation_validation',
+        text='Lean model of reference rendering tied to the code by differential testing of the FOREIGN KEY lines of db.sql '
+             '(with their enclosing CREATE TABLE) and of every reference.sql; oracle: every FK read back by the independent DDL '
+             'reader with its host and compared as a multiset with expectations computed from the references (direction, '
+             'column order, CONSTRAINT, actions, inline vs ALTER never both, join tables).',
+        note='trusted: hand-written model tied by sampling; DDL reader',
+        technique='Lean model + differential correspondence + DDL-reader oracle (theorems staged)',
+        design='6/C04'),
+})
 UNDER_CONSTRUCTION = 'check under construction (model and harness being built; see DESIGN.md)'
 
 
